@@ -122,7 +122,24 @@ ExNames == {"respond_ok", "respond_wrong_provider", "respond_not_active", "expir
             "charge", "discount", "withdraw_ok", "bind_ok", "enable_ok", "disable_ok", "refund_ok",
             "update_binding_ok", "pause_ok", "start_ok", "kill_ok", "update_ok", "unauthorized",
             "callback", "callback_err", "callback_ok", "funds_pause", "batch_repeat", "oneshot_removed",
-            "skip", "modcall_ok", "call_ok", "reject", "two_due", "tax", "total_reached", "norate_pause"}
+            "skip", "modcall_ok", "call_ok", "reject", "two_due", "tax", "total_reached", "norate_pause",
+            \* round 7: error paths of the end-blocker, objects in unusual life-cycle states, unusual inputs
+            "slash_norate", "expire_unavailable", "expire_refunded", "rate_gone_inflight", "rate_changed_inflight",
+            "probe_gone_ctx", "probe_gone_req", "cmd_on_completed", "cmd_on_oneshot", "pause_inflight",
+            "kill_inflight", "start_inflight", "binding_nonowner", "refund_again", "refund_early",
+            "enable_available", "disable_disabled", "update_disabled_deposit", "bind_existing",
+            "bind_foreign_provider", "withdraw_nonowner", "setwithdraw_module", "wrong_denom", "id_lower",
+            "id_badlen", "txfailed"}
+CtxCmdNames == {"Pause", "Start", "Kill", "Update", "ModPause", "ModStart", "ModKill", "ModUpdate"}
+BindCmdNames == {"Disable", "Enable", "RefundDeposit", "UpdateBinding"}
+(* the binding an expiring request was addressed to, as it stood before the block ended *)
+ExpiringOn(P(_)) ==
+  \E r \in ExpiredNow(pre, ev, st) :
+    /\ r \in DOMAIN pre.req /\ HasBind(pre, SvcOfReq(pre, r), pre.req[r].provider)
+    /\ P(pre.bind[SvcOfReq(pre, r)][pre.req[r].provider])
+InflightOther == \E r \in pre.active : r \in DOMAIN pre.req /\ pre.req[r].fdenom # D
+InflightOf(id) == \E r \in pre.active : r \in DOMAIN pre.req /\ pre.req[r].ctx = id
+EvBind == pre.bind[ev.svc][ev.prov]
 Exercised ==
   IF ev.name = "Init" THEN {}
   ELSE
@@ -171,6 +188,40 @@ Exercised ==
        [] c = "modcall_ok" -> ev.name = "ModCall" /\ ev.ok
        [] c = "call_ok" -> ev.name = "Call" /\ ev.ok
        [] c = "reject" -> ~ev.ok
+       [] c = "slash_norate" -> ExpiringOn(LAMBDA b : b.available /\ MinDepErr(pre, b))
+       [] c = "expire_unavailable" -> ExpiringOn(LAMBDA b : ~b.available)
+       [] c = "expire_refunded" -> ExpiringOn(LAMBDA b : b.deposit = 0)
+       [] c = "rate_gone_inflight" -> ev.name = "SetRate" /\ ev.ok /\ ev.rn = 0 /\ pre.rate.n > 0 /\ InflightOther
+       [] c = "rate_changed_inflight" -> ev.name = "SetRate" /\ ev.ok /\ ev.rn > 0 /\ pre.rate.n > 0
+                                         /\ ev.rn * pre.rate.d # pre.rate.n * ev.rd /\ InflightOther
+       [] c = "probe_gone_ctx" -> ev.name \in CtxCmdNames /\ ev.ctx \notin DOMAIN pre.ctx
+                                  /\ ev.ctx \in DOMAIN gpre.batchAt
+       [] c = "probe_gone_req" -> ev.name = "Respond" /\ ev.req \notin DOMAIN pre.req /\ ev.req \in DOMAIN gpre.ans
+       [] c = "cmd_on_completed" -> ev.name \in CtxCmdNames /\ ev.ctx \in DOMAIN pre.ctx
+                                    /\ pre.ctx[ev.ctx].state = "completed"
+       [] c = "cmd_on_oneshot" -> ev.name \in CtxCmdNames /\ ev.ctx \in DOMAIN pre.ctx /\ ~pre.ctx[ev.ctx].repeated
+       [] c = "pause_inflight" -> ev.name \in {"Pause", "ModPause"} /\ ev.ok /\ InflightOf(ev.ctx)
+       [] c = "kill_inflight" -> ev.name \in {"Kill", "ModKill"} /\ ev.ok /\ InflightOf(ev.ctx)
+       [] c = "start_inflight" -> ev.name \in {"Start", "ModStart"} /\ ev.ok /\ InflightOf(ev.ctx)
+       [] c = "binding_nonowner" -> ev.name \in BindCmdNames /\ HasBind(pre, ev.svc, ev.prov) /\ ev.who # EvBind.owner
+       [] c = "refund_again" -> ev.name = "RefundDeposit" /\ HasBind(pre, ev.svc, ev.prov) /\ ev.who = EvBind.owner
+                                /\ ~EvBind.available /\ EvBind.deposit = 0
+       [] c = "refund_early" -> ev.name = "RefundDeposit" /\ HasBind(pre, ev.svc, ev.prov) /\ ev.who = EvBind.owner
+                                /\ ~EvBind.available /\ EvBind.deposit > 0 /\ pre.now < EvBind.disabledAt + pre.params.wait
+       [] c = "enable_available" -> ev.name = "Enable" /\ HasBind(pre, ev.svc, ev.prov) /\ ev.who = EvBind.owner
+                                    /\ EvBind.available
+       [] c = "disable_disabled" -> ev.name = "Disable" /\ HasBind(pre, ev.svc, ev.prov) /\ ev.who = EvBind.owner
+                                    /\ ~EvBind.available
+       [] c = "update_disabled_deposit" -> ev.name = "UpdateBinding" /\ ev.ok /\ ev.amt > 0 /\ ~EvBind.available
+       [] c = "bind_existing" -> ev.name = "Bind" /\ HasBind(pre, ev.svc, ev.prov)
+       [] c = "bind_foreign_provider" -> ev.name = "Bind" /\ ev.prov \in DOMAIN pre.owner /\ pre.owner[ev.prov] # ev.who
+       [] c = "withdraw_nonowner" -> ev.name = "Withdraw" /\ ev.prov \in DOMAIN pre.owner /\ pre.owner[ev.prov] # ev.who
+       [] c = "setwithdraw_module" -> ev.name = "SetWithdraw" /\ ev.to \in {DEP, REQ, FEEP}
+       [] c = "wrong_denom" -> ev.name \in {"Bind", "UpdateBinding", "Enable", "Call", "ModCall", "Update", "ModUpdate"}
+                               /\ ev.amt > 0 /\ ev.ddenom # D
+       [] c = "id_lower" -> ev.name \in CtxCmdNames \cup {"Respond"} /\ ev.idv = "lc" /\ ev.ok
+       [] c = "id_badlen" -> ev.name \in CtxCmdNames \cup {"Respond"} /\ ev.idv \in {"pfx", "pad"}
+       [] c = "txfailed" -> ev.name = "TxFailed"
        [] c = "two_due" -> ev.name = "EndBlock"
                            /\ Cardinality(DueIn(pre.expQ, pre.h) \cup DueIn(pre.newQ, pre.h)) >= 2}
 Coverage == Exercised = {} \/ PrintT(<<"EXERCISED", Exercised>>)
